@@ -106,6 +106,17 @@ class Builtins:
         # a non-string here is an AttributeError in CPython: outside A-exc (sorts trusted)
         return self.ex.ok(SBool(self._endswith(A.sv(bound.t), suf.lit)), st)
 
+    def _str_class_test(name):
+        "s.isdigit() and friends: evaluated on literals; otherwise an unconstrained truth value (over-approximation: A-str)"
+        def m(self, bound, args, kw, st, fr):
+            if bound.lit is not None:
+                return self.ex.ok(SBool(getattr(bound.lit, name)()), st)
+            return self.ex.ok(SBool(fresh_bool(name)), st)
+        return m
+    for _n in ('isdigit', 'isdecimal', 'isnumeric', 'isalpha', 'isalnum', 'isspace', 'isidentifier'):
+        locals()['b_str_' + _n] = _str_class_test(_n)
+    del _n
+
     def b_str_endswith(self, bound, args, kw, st, fr):
         suf = args[0]
         if bound.lit is not None and suf.lit is not None:
